@@ -80,11 +80,16 @@ package xtype
 //@   ensures !t.Named ==> !result.OK
 //@   ensures t.Named ==> t.enum == result
 
+// C08: whether a named type qualifies as an enum depends on the CURRENT configuration: disabled or
+// excluded types never qualify
 //@ func loadEnum
 //@   props C08
 //@   requires@C13 cfg != nil && t != nil
 //@   assigns nothing
 //@   ensures result != nil
+//@   ensures !cfg.Enabled ==> !result.OK
+//@   ensures t.Obj().Pkg() != nil && cfg.Excludes.Matches(t.Obj().Pkg().Path(), t.Obj().Name()) ==> !result.OK
+//@   ensures t.Obj().Pkg() == nil ==> !result.OK
 
 // ---- C09: key-collection loops; the collected slice is sorted before any other use ----
 //@ func Enum.SortedMembers
@@ -109,7 +114,7 @@ package xtype
 //@ func JenID.Pointer
 //@   props C03
 //@   requires@C13 j != nil && j.Code != nil
-//@   ensures result1 != nil && result1.Code != nil
+//@   ensures result1 != nil && result1.Code != nil && isFresh(result1)
 //@ func JenID.Deref
 //@   props C03
 //@   requires@C13 j != nil && j.Code != nil && source != nil && source.PointerInner != nil
@@ -185,3 +190,14 @@ package xtype
 //@ func FindExactField
 //@   props C03 C05
 //@   ensures (err == nil) == (result != nil)
+
+// ---- C05: exact-name lookup scans the fields and then (for named types) the methods ----
+//@ func Type.findAllFields
+//@   props C05 C03
+//@   requires@C13 t.Struct && t.StructType != nil && (t.Named ==> t.NamedType != nil)
+//@   ensures result0 == nil ==> (forall y int :: 0 <= y && y < t.StructType.NumFields() ==> t.StructType.Field(y).Name() != name)
+//@   ensures result0 == nil && t.Named ==> (forall y int :: 0 <= y && y < t.NamedType.NumMethods() ==> t.NamedType.Method(y).Name() != name)
+//@   ensures result0 != nil ==> len(result0.Path) == len(path) + 1 && result0.Path[len(path)] == name
+//@   loop 1 invariant 0 <= y && (forall z int :: 0 <= z && z < y ==> t.StructType.Field(z).Name() != name)
+//@   loop 2 invariant 0 <= y && (forall z int :: 0 <= z && z < y ==> t.NamedType.Method(z).Name() != name)
+//@   loop 2 invariant forall z int :: 0 <= z && z < t.StructType.NumFields() ==> t.StructType.Field(z).Name() != name
